@@ -115,6 +115,15 @@ pub trait Prop: Sync {
 
 fn judge_counted<P: Prop>(p: &P, c: &P::Case) -> Outcome {
     let mut o = p.judge(c);
+    // debugging aid (never set by the registered commands): turn discards whose reason contains the
+    // given text into failures, so that one is shrunk and saved
+    if let Verdict::Discard(why) = &o.verdict {
+        if let Ok(pat) = std::env::var("PV_DEBUG_FAIL_ON_DISCARD") {
+            if !pat.is_empty() && why.contains(&pat) {
+                o.verdict = Verdict::Fail("debug-discard".into(), why.clone());
+            }
+        }
+    }
     if matches!(o.verdict, Verdict::Pass) {
         o.classes.extend(p.shape(c));
     }
@@ -469,6 +478,15 @@ impl Ctx {
     }
 }
 
+/// Each shrinking stage also stops after a wall-clock allowance (PV_SHRINK_SECS, default 240 s): a case
+/// that fails by running into the CPU limit costs 20 s per re-evaluation, and a violation that is already
+/// established must be reported rather than lost to the watchdog. The allowance only decides how small
+/// the saved replay is, never the verdict.
+fn shrink_deadline() -> std::time::Instant {
+    let secs = std::env::var("PV_SHRINK_SECS").ok().and_then(|s| s.parse::<u64>().ok()).unwrap_or(240);
+    std::time::Instant::now() + std::time::Duration::from_secs(secs)
+}
+
 fn shrink<P: Prop, T: ValueTree<Value = Vec<u32>>>(
     p: &P,
     tree: &mut T,
@@ -493,9 +511,10 @@ fn shrink<P: Prop, T: ValueTree<Value = Vec<u32>>>(
         tape0,
     );
     let mut steps = 0;
+    let deadline = shrink_deadline();
     if tree.simplify() {
         loop {
-            if steps >= max_steps {
+            if steps >= max_steps || std::time::Instant::now() > deadline {
                 break;
             }
             steps += 1;
@@ -526,9 +545,10 @@ fn shrink_structurally<P: Prop>(p: &P, mut best: P::Case, kind: &str, mut detail
     let mut spent = 0;
     let mut start = 0usize;
     let mut adopted_in_pass = false;
+    let deadline = shrink_deadline();
     loop {
         let cands = p.shrink_candidates(&best);
-        if cands.is_empty() {
+        if cands.is_empty() || std::time::Instant::now() > deadline {
             break;
         }
         if start >= cands.len() {
